@@ -72,6 +72,7 @@ def plens(tier):
 
 
 class CreateProp(Prop):
+    engine = "E1-create-hashers"
     runner = staticmethod(create.run_any)
     trace = ("TraceCreate.tla", "Trace_Create.cfg")
     assumptions = [
@@ -111,6 +112,11 @@ def hasher_mc(extra=()):
 
 class C01(CreateProp):
     pid = "C01"
+    design_ref = "DESIGN.md section 6 C01"
+    level_text = ("TLC exhaustively checks the implementation-shaped model of Hasher (HasherV1.tla) against the "
+                  "BEP 3 reference for all size vectors of a scaled world, and TLC validates every recorded "
+                  "create execution (boundary-size trees, library and CLI) against the reference operators "
+                  "(TraceCreate.tla): file list, piece string over the listed order, recorded piece length.")
     rule = ("cases = (tree shape, file sizes from the boundary alphabet A(P), piece length, creator in "
             "{TorrentFile class, CLI}); non-trivial = some file empty or not a multiple of P; distinct by "
             "(creator, P, shape, sizes)")
@@ -136,6 +142,11 @@ class C01(CreateProp):
 
 class C15(CreateProp):
     pid = "C15"
+    design_ref = "DESIGN.md section 6 C15"
+    level_text = ("TLC checks Hasher(align) plus the padding arithmetic of TorrentFile.assemble (HasherV1.tla: "
+                  "AssembleCorrect) exhaustively in a scaled world - the arithmetic as found at the pinned commit is "
+                  "kept as a must-fail variant - and validates recorded aligned creates against the padded-stream "
+                  "reference: boundaries, gap lengths, pieces of the declared stream, piece count, single file.")
     rule = ("as C01 with align=True; non-trivial = some file empty or not a multiple of P")
 
     def mc(self, tier):
@@ -158,6 +169,11 @@ class C15(CreateProp):
 
 class C02(CreateProp):
     pid = "C02"
+    design_ref = "DESIGN.md section 6 C02"
+    level_text = ("TLC checks the three BEP 52 hashers (HasherV2.tla) against two independent formulations of the "
+                  "BEP 52 tree (closed form and bottom-up, BEP52.tla) for all sizes up to 5 pieces and 4 piece "
+                  "lengths, and validates recorded v2/hybrid creates of all four creators: tree mirror, roots as "
+                  "nodes N(f,h,0) of the zero-padded merkle tree, empty files, piece-layer membership and content.")
     rule = ("cases = (shape, sizes from A(P), P, creator in {TorrentAssembler, TorrentFileV2, "
             "TorrentFileHybrid, CLI}, version in {2,3}); non-trivial as C01")
 
@@ -182,6 +198,10 @@ class C02(CreateProp):
 
 class C03(CreateProp):
     pid = "C03"
+    design_ref = "DESIGN.md section 6 C03"
+    level_text = ("TLC checks the hybrid hashers' v1 pieces / padding description (HasherV2.tla: PiecesCorrect) and "
+                  "validates recorded hybrid creates: file-list/file-tree correspondence, piece-boundary starts, "
+                  "padding entries, SHA-1 pieces of exactly the declared stream, single-file stream.")
     rule = ("cases = (shape, sizes from A(P), P, hybrid creator in {TorrentAssembler(3), "
             "TorrentFileHybrid, CLI}); non-trivial as C01")
 
@@ -200,6 +220,10 @@ class C03(CreateProp):
 
 class C10(CreateProp):
     pid = "C10"
+    design_ref = "DESIGN.md section 6 C10"
+    level_text = ("TLC checks pairwise agreement of all hasher models (HasherV2.tla: AllAgree) and validates "
+                  "recorded creator pairs (identical info-hash and piece layers) and hasher quadruples (root, "
+                  "layer, pieces, padding equal to each other and to the BEP 52 reference; FileHasher iterator steps).")
     group_key = "group"
     rule = ("cases = creator pairs (TorrentAssembler v2 | TorrentFileV2), (TorrentAssembler hybrid | "
             "TorrentFileHybrid) on the same tree, and hasher quadruples (HasherV2, HasherHybrid, "
